@@ -138,6 +138,7 @@ def check(ctx) -> None:
     r25(ctx)
     r26(ctx)
     r27(ctx)
+    r28(ctx)
 
 
 def r21(ctx, cls) -> None:
@@ -532,3 +533,64 @@ def r27(ctx) -> None:
     if n == 0:
         R.fail(None, None, 'flag-key index is maintained',
                'no discard/add on _flags_key_set found')
+
+
+def r28(ctx) -> None:
+    R = ctx.rule('R2.8', 'the diff machinery works on snapshots, never on '
+                 'the live message objects', 2)
+    SEL_ = 'pymap/selected.py'
+    sm = ctx.proj.cls(SEL_, 'SelectedMailbox')
+    f = sm.own_method('silence')
+    if f is None:
+        raise AnchorError('SelectedMailbox.silence vanished')
+    # what silence() takes as "the flags before my change"
+    n = 0
+    for c in calls_in(f.node, 'apply'):
+        if not c.args:
+            continue
+        olds = resolve_local(f, c.args[0])
+        srcs = ' '.join(txt(v) for v in olds)
+        if 'session_flags' in srcs or 'sflags' in txt(c.args[0]):
+            continue                      # session flags are per session
+        n += 1
+        live = [txt(v) for v in olds if isinstance(v, ast.Attribute)
+                and v.attr == 'permanent_flags'
+                and not is_name(v.value, 'self')]
+        # tuple-unpacked from the snapshot map: `_, x = flags_key_map[uid]`
+        snap = '_flags_key_map' in srcs or any(
+            isinstance(s_, ast.Assign) and isinstance(s_.targets[0],
+                                                      ast.Tuple)
+            and any(txt(e) == txt(c.args[0]) for e in s_.targets[0].elts)
+            and any('_flags_key_map' in txt(v2)
+                    for v2 in resolve_local(f, s_.value.value
+                                            if isinstance(s_.value,
+                                                          ast.Subscript)
+                                            else s_.value))
+            for s_ in walk_local(f.node))
+        R.check(snap and not live, f, c,
+                'silence(): the flags before the change are the ones last '
+                'synchronised with the client',
+                f'silence() starts from {live or srcs}: on the dict backend '
+                f'the cached message is the live object shared by every '
+                f'session, so a flag another session has just set is folded '
+                f'into the silenced value — STORE 1 +FLAGS.SILENT '
+                f'(\\Deleted) right after another session\'s +FLAGS '
+                f'(\\Flagged) silences that change too and this session is '
+                f'never told about \\Flagged')
+    if n == 0:
+        raise AnchorError('silence(): permanent-flag apply() not found')
+    # no other live read in the diff machinery
+    fz = ctx.proj.module(SEL_).classes.get('_Frozen')
+    cmp_ = sm.own_method('_compare')
+    reads = 0
+    for g in [m for m in (cmp_, fz.own_method('__init__') if fz else None)
+              if m is not None]:
+        for x in walk_local(g.node):
+            if isinstance(x, ast.Attribute) and x.attr in (
+                    'permanent_flags', 'flags_key') and \
+                    not is_name(x.value, 'self'):
+                reads += 1
+                R.fail(g, x, f'{g.qualname}: live read `{txt(x)}`',
+                       'before/after comparison reads a live message object')
+    R.ok(cmp_, cmp_.node, '_compare/_Frozen read only copied sets',
+         f'{reads} live flag read(s)')
